@@ -803,6 +803,13 @@ def directed_runs(key="WD-x"):
         rc, o, e = vlib.run([kessoku, "migrate", "-o", "kessoku.go", "./"], cwd=kdir2, env=dict(env, GOMAXPROCS="1"), timeout=300)
         if rc != 0 or open(os.path.join(kdir2, "kessoku.go")).read().replace(name + "_k2", name + "_k") != text1:
             rec["problems"].append("C14: migrate output differs between two runs")
+        # the output path already holds a longer (valid, unrelated) file: it must be replaced, not overwritten in place
+        stale = "package main\n\n" + "".join("var staleLeftover%d = %d\n" % (q, q) for q in range(len(text1) // 20 + 40))
+        with open(os.path.join(kdir2, "kessoku.go"), "w") as f:
+            f.write(stale)
+        rc, o, e = vlib.run([kessoku, "migrate", "-o", "kessoku.go", "./"], cwd=kdir2, env=env, timeout=300)
+        if rc != 0 or open(os.path.join(kdir2, "kessoku.go")).read().replace(name + "_k2", name + "_k") != text1:
+            rec["problems"].append("C14: migrate over a longer previous output file does not produce the same bytes as a fresh run")
         shutil.rmtree(kdir2, ignore_errors=True)
         os.remove(os.path.join(kdir, "wire.go"))
         rc, o, e = vlib.run(["gofmt", "-l", "kessoku.go"], cwd=kdir, env=env, timeout=60)
